@@ -402,8 +402,15 @@ class HistogramCase(Case):
         c.params = {"n_components": tape.choice("hi.bins", [2, 5, 20]),
                     "strategy": tape.choice("hi.strategy", ["uniform", "quantile"]),
                     "append_outlier_bins": tape.chance("hi.outlier", 1, 2)}
-        c.desc.update(params=dict(c.params), pool=len(c.pool), ntrain=ntrain)
+        # a finite absolute_range leaves some values without a bin (bins are left-open: 0 is outside (0, inf))
+        c.abs_range = tape.weighted("hi.range", [(3, None), (2, (0, float("inf"))), (1, (1.0, 8.0))])
+        c.desc.update(params=dict(c.params), absolute_range=repr(c.abs_range), pool=len(c.pool), ntrain=ntrain)
         return c
+
+    def param_objects(self):
+        if self.abs_range is not None:
+            return {"absolute_range": tuple(self.abs_range)}
+        return {}
 
 
 class KDECase(Case):
@@ -831,6 +838,12 @@ class CoocCase(Case):
         if not ctx.interp:
             # keep the set of numba type-shapes small (see plans.py)
             c.params["window_orientations"] = "directional"
+        if ctx.interp:
+            kern = {"token": ["flat", "harmonic", "geometric"], "ngram": ["flat", "geometric"],
+                    "timed": ["flat", "geometric"], "multiset": ["flat", "geometric"]}[kind]
+            c.params["kernel_functions"] = tape.weighted("co.kernel", [(3, kern[0])] + [(1, k) for k in kern[1:]])
+        # timed data: per-document time step (so that the mean inter-arrival time differs between training subsets)
+        c.time_steps = [tape.choice("co.dt", [1.0, 0.5, 2.0]) for _ in docs] if kind == "timed" else None
         mp = _mask_params(tape, "co") if (ctx.interp or params.get("cooc_masks")) else {}
         c.params.update(mp)
         if kind == "ngram":
@@ -859,11 +872,11 @@ class CoocCase(Case):
             return docs, {}
         if self.kind == "timed":
             out = []
-            for d in docs:
+            for i, d in zip(ids, docs):
                 t = 0.0
                 seq = []
                 for tok in d:
-                    t += 1.0
+                    t += self.time_steps[i]
                     seq.append([tok, t])
                 out.append(seq)
             return out, {}
